@@ -150,6 +150,9 @@ def runner(rep, tier, seed, replay):
                 rep.sample({"jobs": defs, "actions": [dict((k, v) for k, v in r.items() if k != "obs") for r in recs[1:]][:12]})
         else:
             unexplained += 1
+            if os.environ.get("C07_DUMP"):
+                with open(os.environ["C07_DUMP"], "a") as f:
+                    f.write(json.dumps({"line": ln, "records": recs}) + "\n")
             log("[C07] session not explained by the model at trace line %s (no property failed): %s" % (ln, json.dumps(recs[ln - 1] if ln and ln <= len(recs) else None)[:400]))
     rep.cov["traces_validated_against_impl"] = accepted
     rep.cov["distinct_nontrivial"] = len(good)
